@@ -21,7 +21,7 @@ O(op, arg) == [op |-> op, arg |-> arg]
 NoKw == <<>>
 TN == TArg(<<O(".", VStr("n"))>>)
 ExprAlphabet == {
-  O(".", VStr("n")), O(".", VStr("l")), O(".", VStr("echo")), O(".", VStr("__class__")), O(".", VStr("_x")),
+  O(".", VStr("n")), O(".", VStr("l")), O(".", VStr("echo")), O(".", VStr("__class__")), O(".", VStr("_x")), O(".", VStr("__x")), O(".", VStr("__x_")),
   O("[", Lit(VInt(0))), O("[", Lit(VInt(-1))), O("[", Lit(VInt(1))), O("[", Lit(VFrac(1, 1))), O("[", Lit(VStr("k"))), O("[", Lit(VStr("it's"))), O("[", Lit(VStr("a.b"))),
   O("[", Lit(VStr("q\"d"))), O("[", Lit(VStr("b'\"q"))), O("[", Lit(VStr("s\\'\"t"))), O("[", Lit(VNone)), O("[", Lit(VFrac(1, 2))), O("[", TN),
   O("[", SliceArg(VInt(0), VInt(1), VNone)), O("[", SliceArg(VNone, VNone, VInt(-1))), O("[", SliceArg(VInt(1), VNone, VNone)),
